@@ -737,6 +737,98 @@ def rule_r8(prog, res):
     res.floor('R8', 'default bound of non-wrapped arrays', k, 1)
 
 
+# ------------------------------------------------------------------- R9
+def rule_r9(prog, res):
+    res.rule('R9', 'fields prepended one by one are taken in reverse; a '
+             'derived binary type gets the type name of the encoding it was '
+             'asked for; per-class caches are keyed by the class they were '
+             'computed for')
+    # (a) insert(0, x) in a loop reverses unless the source is reversed
+    n = 0
+    for mod in prog.modules.values():
+        if not mod.relpath.startswith('spyne/model/'):
+            continue
+        for f in mod.functions.values():
+            for loop in walk_no_defs(f.node):
+                if not isinstance(loop, ast.For):
+                    continue
+                ins = [c for st in loop.body for c in ast.walk(st)
+                       if isinstance(c, ast.Call) and call_name(c) == 'insert'
+                       and len(c.args) == 2 and isinstance(
+                           c.args[0], ast.Constant) and c.args[0].value == 0
+                       and any(isinstance(x, ast.Name) and x.id in {
+                           y.id for y in ast.walk(loop.target)
+                           if isinstance(y, ast.Name)}
+                           for x in ast.walk(c.args[1]))]
+                if not ins:
+                    continue
+                n += 1
+                it = loop.iter
+                rev = isinstance(it, ast.Call) and call_name(it) == 'reversed'
+                where = '%s:%d' % (mod.relpath, loop.lineno)
+                res.ob('R9', where, '%s prepends the items of %s one by one' %
+                       (f.qualname, unparse(it)[:40]),
+                       'ok' if rev else 'VIOLATED')
+                if not rev:
+                    res.finding('R9', '%s|prepend-reverses' % f.qualname,
+                                where, '%s inserts every item of %s at index '
+                                '0 without reversing the source: the fields '
+                                'end up in reverse declaration order, in the '
+                                'class, its flat type info, every variant '
+                                'and the schema' % (f.qualname,
+                                                    unparse(it)[:40]))
+    res.floor('R9', 'prepend loops in the model layer', n, 1)
+    # (b) ByteArray.__new__: encoding and type name go together
+    b = prog.cls('spyne.model.binary:ByteArray')
+    f = b.methods.get('__new__')
+    k = 0
+    for a in walk_no_defs(f.node):
+        if isinstance(a, ast.Assign) and any(
+                isinstance(t, ast.Attribute) and t.attr == '__type_name__'
+                for t in a.targets):
+            k += 1
+            guardspec.check(res, 'R9', f, a, 'the type name of the derived '
+                            'binary type', allowed=[],
+                            required=[('%s is None' % unparse(a.value),
+                                       False)],
+                            key='ByteArray.__new__|type-name')
+    res.floor('R9', 'type name stores in ByteArray.__new__', k, 1)
+    # (c) cache keys
+    pm = prog.cls('spyne.protocol._base:ProtocolMixin')
+    m = 0
+    for nm, cache in (('sort_fields', '_sortcache'),
+                      ('get_cls_attrs', '_attrcache')):
+        g = pm.methods.get(nm)
+        if g is None:
+            continue
+        clsparam = [p_ for p_ in g.params() if p_ != 'self'][0]
+        keys = []
+        for x in walk_no_defs(g.node):
+            if isinstance(x, ast.Subscript) and unparse(x.value) == \
+                    'self.' + cache:
+                keys.append((x, x.slice))
+            if isinstance(x, ast.Call) and isinstance(
+                    x.func, ast.Attribute) and unparse(x.func.value) == \
+                    'self.' + cache and x.func.attr in ('get', 'setdefault',
+                                                        'pop') and x.args:
+                keys.append((x, x.args[0]))
+        for x, kexpr in keys:
+            m += 1
+            ok = unparse(kexpr) == clsparam
+            where = '%s:%d' % (g.module.relpath, x.lineno)
+            res.ob('R9', where, '%s: self.%s keyed by %s' % (
+                nm, cache, unparse(kexpr)), 'ok' if ok else 'VIOLATED')
+            if not ok:
+                res.finding('R9', 'ProtocolMixin.%s|cache-key|%s' % (
+                    nm, unparse(kexpr)[:30]), where, 'self.%s is keyed by %s '
+                    'instead of the class itself: a class and its customized '
+                    'variants (different child_attrs: exc, order, sub_name) '
+                    'share one entry, so whichever is serialised first '
+                    'decides the fields of the others' % (
+                        cache, unparse(kexpr)))
+    res.floor('R9', 'cache accesses', m, 4)
+
+
 def run(prog, res, tier):
     res.run_rule(rule_r1, prog, res)
     res.run_rule(rule_r2, prog, res)
@@ -746,12 +838,28 @@ def run(prog, res, tier):
     res.run_rule(rule_r6, prog, res)
     res.run_rule(rule_r7, prog, res)
     res.run_rule(rule_r8, prog, res)
+    res.run_rule(rule_r9, prog, res)
 
 
 _C = 'spyne/model/complex.py'
 _B = 'spyne/model/_base.py'
 
 MUTANTS = [
+    Mutant('mixin-fields-prepended-unreversed', 'R9', 'fire', _C,
+           in_func('_get_type_info',
+                   "for k, v in reversed(mixin.items()):",
+                   "for k, v in mixin.items():"), 'prepend-reverses'),
+    Mutant('binary-type-name-only-when-new', 'R9', 'fire',
+           'spyne/model/binary.py',
+           in_func('ByteArray.__new__', "        if tn is not None:\n",
+                   "        if tn is not None and tn != ByteArray."
+                   "__type_name__:\n"), 'extra-guard'),
+    Mutant('sort-cache-keyed-by-original', 'R9', 'fire',
+           'spyne/protocol/_base.py',
+           in_func('ProtocolMixin.sort_fields',
+                   "retval = self._sortcache.get(cls, None)",
+                   "retval = self._sortcache.get(cls.__orig__ or cls, None)"),
+           'cache-key'),
     Mutant('insert-field-policy-order', 'R8', 'fire', _C,
            in_func('ComplexModelBase._insert_field_impl',
                    r"(        dcaa = cls\.Attributes\._delayed_child_attrs_all"
